@@ -127,7 +127,7 @@ def bounded(b):
     from gen import oracles as O
     import numpy as np
     parts = _parts(b.tier)
-    modes = [("notated", None), ("musical_default", {}), ("musical_user", {"6/8": 3, "5/8": 2, "12/8": 2})]
+    modes = [("notated", None), ("musical_default", {}), ("musical_user", {"6/8": 3, "5/8": 2, "12/8": 2}), ("musical_user_single_entry", {"4/4": 2}), ("musical_user_single_entry_6_8", {"6/8": 6})]
     b.rules.append("generated parts (%d: quarter-duration changes at/inside/outside barlines, signature changes incl. compound and irregular meters, pickups "
                    "of several lengths incl. a full first bar and a divisions change inside the pickup) x beat mode {notated, musical default, musical "
                    "user beats}; at every integer position between first and last point (capped at 400) and every change point: quarter/beat value = "
@@ -207,6 +207,30 @@ def bounded(b):
                 bad = "after the history, (divisions, quarter, beat) at t=%d are %r; the latest settings %r mean %r" % (t, got, final, want)
                 break
         b.case("maps/latest_setting_in_force_after_an_edit_history", bad is None, case, bad or "")
+    # a map asked for, the part edited in place, the map asked for again: the second answer follows the edited part
+    for edit_name, edit in (("replace_a_quarter_duration_at_an_existing_change", lambda p: p.set_quarter_duration(8, 3)),
+                            ("replace_a_time_signature", lambda p: (p.remove([t for t in p.iter_all(sc.TimeSignature) if t.start.t == 8][0]), p.add(sc.TimeSignature(6, 8), 8))),
+                            ("new_musical_beats_for_a_signature", lambda p: p.set_musical_beat_per_ts({"3/4": 1, "4/4": 2}))):
+        p = sc.Part("P", quarter_duration=4)
+        p.set_quarter_duration(8, 2)
+        p.add(sc.TimeSignature(4, 4), 0)
+        p.add(sc.TimeSignature(3, 4), 8)
+        p.add(sc.Note("C", 4, id="n0", voice=1), 0, 26)
+        if edit_name.startswith("new_musical"):
+            p.use_musical_beat()
+        case = {"edit_between_two_reads": edit_name}
+        first = [float(p.beat_map(t)) for t in range(0, 27)] + [float(p.quarter_map(t)) for t in range(0, 27)] + [float(p.inv_beat_map(p.beat_map(t))) for t in range(0, 27)]
+        ok, _ = b.guard("maps/no_exception", case, lambda: edit(p))
+        if not ok:
+            continue
+        mus = bool(p._use_musical_beat)
+        bad = None
+        for t in range(0, 27):
+            got = (float(p.beat_map(t)), float(p.quarter_map(t)), float(p.inv_beat_map(p.beat_map(t))))
+            want = (float(O.beat_pos(p, t, mus)), float(O.quarter_pos(p, t)), float(t))
+            if any(abs(g - w) > 1e-9 for g, w in zip(got, want)):
+                bad = bad or "after the edit (beat, quarter, inverse of beat) at t=%d are %r, the edited part means %r" % (t, got, want)
+        b.case("maps/follow_the_part_as_it_is_now", bad is None, case, bad or "")
     # multi-step beat-mode sequences (user beats -> notated -> default)
     for seq in ([("m", {"5/8": 2}), ("n", None), ("m", {})], [("m", {"3/4": 1}), ("n", None), ("m", {}), ("n", None)], [("s", {"6/8": 3}), ("s", {})]):
         p = sc.Part("P", quarter_duration=2)
